@@ -49,8 +49,12 @@ def run(tier="quick", seed=0, arg=None):
     fails, evals, distinct, samples = [], 0, 0, []
     interp = interpreters()
     pairs = universe(tier)
+    impls = IMPLS
+    if arg:      # replay of a solver counter-model: one tag pair / implementation setting over the whole requires_python catalogue
+        pairs = [(arg["python_tag"], arg["abi_tag"])]
+        impls = [(arg.get("implementation"), bool(arg.get("gil_disabled")))]
     for rp in REQUIRES:
-        for impl, gil in IMPLS:
+        for impl, gil in impls:
             spec = EnvSpec.from_spec(rp, None, impl, gil_disabled=gil) if impl else EnvSpec.from_spec(rp)
             admitted = [p for p in interp if O.den(spec.requires_python, Version("%d.%d.%d" % p))]
             for t, a in pairs:
